@@ -202,6 +202,19 @@ func C14Cases(p *spec.Program, cfgs []spec.Config, seed uint64, tier string, nSc
 			cfg.ComputedFields = append(cfg.ComputedFields, "")
 			cfg.RequiredFields = append(cfg.RequiredFields, "")
 			cfg.SensitiveFields = append(cfg.SensitiveFields, "")
+			// entries that look like list arithmetic (`-X`, `!X`): the plugin defines no such syntax, they are
+			// names that match nothing, next to the plain entry they resemble
+			dashed := func(l []string) []string {
+				out := append([]string{}, l...)
+				for i, x := range l {
+					if x != "" && i < 3 {
+						out = append(out, "-"+x, "!"+x)
+					}
+				}
+				return out
+			}
+			cfg.ExcludeFields, cfg.ComputedFields = dashed(cfg.ExcludeFields), dashed(cfg.ComputedFields)
+			cfg.RequiredFields, cfg.SensitiveFields = dashed(cfg.RequiredFields), dashed(cfg.SensitiveFields)
 		}
 		ref := runFrom(cfg.Render(split, nil))
 		ref.Params = append(ref.Params, junk...)
